@@ -25,6 +25,13 @@
  *
  * case 0 of every mode checks echs_instant_lt_p / echs_event_lt_p against the
  * rank order on every pair of every alphabet.
+ *
+ * clauses: cmp (case 0), perm, order (library predicate), chron (rank order,
+ * reported when the predicate had no objection), stable (events), mismatch
+ * (none of the former yet different from the reference; cannot happen),
+ * oob (access outside the array: guard pages + canary in the plain build),
+ * nonterm (sort still running after 0.8 s of its own CPU time); the asan
+ * build reports out-of-bounds accesses as the supervisor's crash/...
  */
 #include "vdrv.h"
 #include <stdbool.h>
@@ -125,6 +132,7 @@ static unsigned char expbuf[MAXN * sizeof(echs_event_t)];
  * page, so the first access behind the array faults at once and a case gives
  * the same result whatever ran before it in the same worker (the sanitizer
  * variant uses an exact-size heap block instead) */
+
 static unsigned char *wrk_lo, *wrk_hi;	/* the accessible part */
 
 static void
@@ -145,7 +153,7 @@ init_wrk(void)
 	memset(wrk_lo, 0xa5, sz);
 }
 
-static long n_arrays, n_nontriv;
+static long n_arrays, n_nonterm;
 /* count=0: a second pass over arrays another driver counts already (asan) */
 static int count_nt = 1;
 
@@ -175,6 +183,30 @@ tick(int sig)
 	}
 }
 
+#if !defined __SANITIZE_ADDRESS__
+static unsigned char *volatile fault_addr;
+
+/* a fault in the pages around the work area while a sort is running is the
+ * sort's doing: leave the sort and report it (no worker restart needed, and
+ * the report says where); any other fault takes the default route, i.e. the
+ * worker dies and the supervisor reports crash/... */
+static void
+fault(int sig, siginfo_t *si, void *uc)
+{
+	const size_t pg = (size_t)sysconf(_SC_PAGESIZE);
+	unsigned char *addr = si->si_addr;
+	(void)uc;
+	if (in_sort && addr >= wrk_lo - pg && addr < wrk_hi + pg) {
+		fault_addr = addr;
+		in_sort = 0;
+		siglongjmp(sort_jmp, 2);
+	}
+	signal(sig, SIG_DFL);
+}
+#else
+static unsigned char *volatile fault_addr;
+#endif
+
 static void
 init_tick(void)
 {
@@ -186,6 +218,14 @@ init_tick(void)
 	sigemptyset(&sa.sa_mask);
 	sigaction(SIGVTALRM, &sa, NULL);
 	setitimer(ITIMER_VIRTUAL, &it, NULL);
+#if !defined __SANITIZE_ADDRESS__
+	memset(&sa, 0, sizeof(sa));
+	sa.sa_sigaction = fault;
+	sa.sa_flags = SA_SIGINFO;
+	sigemptyset(&sa.sa_mask);
+	sigaction(SIGSEGV, &sa, NULL);
+	sigaction(SIGBUS, &sa, NULL);
+#endif
 }
 
 static void
@@ -274,17 +314,20 @@ keyhash(const unsigned char *k, size_t n)
 }
 
 /* run one array: key[0..n) over alphabet A as KIND; WHAT names the array
- * (family and parameter), GRP is the family group used in signatures.
+ * (family and parameter), GRP is the family group used in signatures, FAM the
+ * family (used, with the alphabet size, in the signatures of the clauses that
+ * are about the sort's conduct rather than its result: oob, nonterm; same
+ * shape as the supervisor's crash/... signatures).
  * returns true if the array was non-trivial (>= 2 distinct keys and at least
  * one descent, i.e. the sort has to move something) */
 static bool
-run(int kind, const struct alph_s *a, size_t n, const char *grp, const char *what)
+run(int kind, const struct alph_s *a, size_t n, const char *grp, const char *fam, const char *what)
 {
 	const size_t esz = ksz[kind];
 	size_t cnt[MAXK + 1] = {0};
 	size_t pos[MAXK + 1];
 	unsigned char *w;
-	bool desc = false;
+	volatile bool desc = false;	/* lives across the sigsetjmp below */
 	char sig[160], ks[256];
 
 	n_arrays++;
@@ -314,12 +357,37 @@ run(int kind, const struct alph_s *a, size_t n, const char *grp, const char *wha
 	memcpy(w, inbuf, n * esz);
 
 	sort_seq++;
-	if (sigsetjmp(sort_jmp, 1)) {
+	switch (sigsetjmp(sort_jmp, 1)) {
+	case 0:
+		break;
+	case 1:
 		/* the watchdog took us out of the sort */
-		snprintf(sig, sizeof(sig), "nonterm/%s/%s/%s", kname[kind], lenclass(n), grp);
+		snprintf(sig, sizeof(sig), "nonterm/%s/%s/%s/%s/k%d", kname[kind], lenclass(n), grp, fam, a->k);
 		keystr(ks, sizeof(ks), key, n);
 		vd_viol(sig, "%s n=%zu alphabet %s %s%s%s: sort still running after 0.8 s of CPU time",
 			kname[kind], n, a->name, what, *ks ? " keys " : "", ks);
+		/* each of these costs a second; a worker that has seen 24 gives up
+		 * (the run then reports its findings with exhaustive:false) */
+		vd_count("nonterminating_sorts", 1);
+		if (++n_nonterm >= 24) {
+			vd_sh->capped = 1;
+		}
+		goto out;
+	default:
+		/* the sort ran into one of the inaccessible pages around the array */
+		snprintf(sig, sizeof(sig), "oob/%s/%s/%s/%s/k%d", kname[kind], lenclass(n), grp, fam, a->k);
+		keystr(ks, sizeof(ks), key, n);
+		if (fault_addr >= w + n * esz) {
+			vd_viol(sig, "%s n=%zu alphabet %s %s%s%s: sort accesses memory behind the array "
+				"(first fault at element index %zu, array has %zu)",
+				kname[kind], n, a->name, what, *ks ? " keys " : "", ks,
+				(size_t)(fault_addr - w) / esz, n);
+		} else {
+			vd_viol(sig, "%s n=%zu alphabet %s %s%s%s: sort accesses memory in front of the array "
+				"(first fault %zu bytes before its start)",
+				kname[kind], n, a->name, what, *ks ? " keys " : "", ks, (size_t)(w - fault_addr));
+		}
+		vd_count("out_of_bounds_faults", 1);
 		goto out;
 	}
 	in_sort = 1;
@@ -333,7 +401,7 @@ run(int kind, const struct alph_s *a, size_t n, const char *grp, const char *wha
 #if !defined __SANITIZE_ADDRESS__
 	for (const unsigned char *p = w - GUARD * esz; p < w; p++) {
 		if (*p != 0xa5) {
-			snprintf(sig, sizeof(sig), "oob/%s/%s/%s", kname[kind], lenclass(n), grp);
+			snprintf(sig, sizeof(sig), "oob/%s/%s/%s/%s/k%d", kname[kind], lenclass(n), grp, fam, a->k);
 			vd_viol(sig, "%s n=%zu alphabet %s %s: sort wrote %zu bytes in front of the array",
 				kname[kind], n, a->name, what, (size_t)(w - p));
 			break;
@@ -710,14 +778,14 @@ enum_exh(void)
 				vd_shape("%s/%s/exh/all/k%d", kname[kind], lenclass(n), a->k);
 				vd_desc("%s: every array of length %d over alphabet %s (%d keys)", kname[kind], n, a->name, a->k);
 				for (int i = 0; i < n; i++) total *= a->k;
-				for (size_t c = 0; c < total; c++) {
+				for (size_t c = 0; c < total && !vd_sh->capped; c++) {
 					size_t x = c;
 					for (int i = n - 1; i >= 0; i--) {
 						key[i] = (unsigned char)(x % a->k);
 						x /= a->k;
 					}
 					snprintf(what, sizeof(what), "array #%zu of %zu", c, total);
-					nt += run(kind, a, n, "exh", what);
+					nt += run(kind, a, n, "exh", "all", what);
 				}
 				vd_sh->nontriv += count_nt ? nt : 0;
 				vd_count("arrays_exhaustive_short", (long)total);
@@ -798,7 +866,7 @@ enum_fam(void)
 					vd_shape("%s/%s/%s/%s/k%d", kname[kind], lenclass(n), fam_group(f), fam_name(f), a->k);
 					vd_desc("%s: length %zu, alphabet %s (%d keys), %s",
 						kname[kind], n, a->name, a->k, what);
-					nt = run(kind, a, n, fam_group(f), what);
+					nt = run(kind, a, n, fam_group(f), fam_name(f), what);
 					dup = fam_dup_p(f, n, a->k, fulldup);
 					if (nt && cnt && !dup) {
 						vd_sh->nontriv += count_nt;
@@ -862,7 +930,7 @@ enum_pos(void)
 							fam_fill(f, n, a->k, what, sizeof(what));
 							hs[f] = keyhash(key, n);
 						}
-						for (size_t i = b; i < e; i++) {
+						for (size_t i = b; i < e && !vd_sh->capped; i++) {
 							uint64_t h;
 							bool dup;
 							pos_fill(pf, n, a->k, i);
@@ -873,7 +941,7 @@ enum_pos(void)
 								dup |= hs[f] == h;
 							}
 							snprintf(what, sizeof(what), "%s(i=%zu)", pname[pf], i);
-							if (run(kind, a, n, "tworun", what) && !dup && cnt &&
+							if (run(kind, a, n, "tworun", pname[pf], what) && !dup && cnt &&
 							    !pos_dup_p(pf, n, a->k, i, h)) {
 								nt++;
 							}
@@ -903,7 +971,7 @@ enumerate(void)
 	init_wrk();
 #endif
 	vd_count_cases = 0;
-	n_arrays = n_nontriv = 0;
+	n_arrays = 0;
 	check_cmp();
 	if (!strcmp(mode, "exh")) {
 		enum_exh();
